@@ -137,26 +137,175 @@ def run(ck):
     thorough = ck.tier == "thorough"
     files = sl.Files(pg)
     try:
+        saved = (list(pg.ADSORBATE_LIST), list(pg.MATERIAL_LIST))
+        try:
+            _schema_tie(ck, pg, pgsql, files)
+        finally:                                      # db_create and the traced calls append to the process-global lists
+            pg.ADSORBATE_LIST[:], pg.MATERIAL_LIST[:] = saved
         _run(ck, pg, pgsql, BaseIsotherm, rng, thorough, files)
         _bulk(ck, pg, pgsql, rng, thorough, files)
     finally:
         files.close()
 
 
+def _schema_tie(ck, pg, pgsql, files):
+    """Validation of the generator `Schema` (Gen/Schema.lean, the data the theorems of Props/C08/Schema.lean are about):
+    (1) the generated schema, echoed back by the Lean driver Drv/Schema.lean, equals what PRAGMA table_xinfo / foreign_key_list /
+        index_list / index_info report on a database file created by the real `db_create` of the tree under check;
+    (2) the empty databases this harness works on (the pragmas alone, see storelib.Files) have that same schema;
+    (3) the statements the public entry points actually hand to SQLite address only the tables the generator extracted from the AST
+        (`opTables`), and every connection starts with the generated connection pragmas and issues no other PRAGMA.
+    A difference is a broken tie (reported without a failing input unless the histories below find one)."""
+    info = ck.gen_info.get("Schema")
+    if info is None:
+        ck.notes.append("schema tie: Gen/Schema.lean was not regenerated in this run; generator validation skipped")
+        return
+    import pygaps.utilities.sqlite_db_creator as creator
+    summary = {}
+    created = files.dir / "created.db"
+    try:
+        creator.db_create(str(created))
+        real = sl.schema_lines(created)
+        summary["db_create"] = "ok"
+    except Exception as e:  # noqa
+        ck.broken.append({"step": "schema tie: db_create of the tree under check", "what": repr(e)[:400]})
+        real = None
+    tmpl = sl.schema_lines(files.template)
+    if real is not None and (real["tables"] != tmpl["tables"] or real["other"] != tmpl["other"]):
+        ck.broken.append({"step": "schema tie: harness databases", "what": {"clause": "the empty databases of the harness (pragmas alone) have the schema db_create produces",
+                                                                          "difference": _first_diff(tmpl["tables"], real["tables"])}})
+    real = real or tmpl
+    n = len(info["schema"]["tables"])
+    try:
+        rep = ck.drive("Schema", ["tables"] + [f"table {i}" for i in range(n + 1)] + ["other", "pragmas", "ops", "opsdirect"])
+    except Exception as e:  # noqa
+        ck.broken.append({"step": "driver Schema", "what": str(e)[:600]})
+        return
+    lean_tables, lean_other, lean_pragmas = rep[1:n + 1], rep[n + 2], [x for x in rep[n + 3].split("\t") if x]
+    if rep[0] != str(n) or rep[n + 1] != "none":
+        ck.broken.append({"step": "schema tie: generator", "what": f"Gen/Schema.lean has {rep[0]} tables, the generator reported {n}"})
+    for i in range(max(len(lean_tables), len(real["tables"]))):
+        a = lean_tables[i] if i < len(lean_tables) else "<no such table in Gen/Schema.lean>"
+        b = real["tables"][i] if i < len(real["tables"]) else "<no such table in the database file>"
+        ck.count(("schema-table", b.split("\t")[0]), bucket="schema tie: table of the real database = generated table")
+        if a != b:
+            ck.broken.append({"step": "schema tie: Gen/Schema.lean vs the database created by db_create",
+                              "what": {"generated": a.replace("\t", " ")[:500], "database": b.replace("\t", " ")[:500]}})
+    ck.count(("schema-other",), bucket="schema tie: table of the real database = generated table")
+    if lean_other != real["other"]:
+        ck.broken.append({"step": "schema tie: other schema objects", "what": {"generated": lean_other, "database": real["other"]}})
+    summary["tables_compared"] = real["names"]
+
+    # ---- (3) the statements really issued
+    ops = {}
+    for item in rep[n + 4].split("\t"):
+        fn, _, tabs = item.partition("=")
+        ops[fn] = set(t for t in tabs.split(",") if t)
+    path = files.new()
+    iso_holder = {}
+
+    def up_iso():
+        pg.Material("pgv-tie-mat", tie_prop=2.5, store=True)            # found by name (adsorbates / materials are passed by name)
+        pg.Adsorbate("pgv-tie-gas", tie_prop=1.5, store=True)
+        iso_holder["iso"] = pg.PointIsotherm(pressure=[0.1, 0.2, 0.3], loading=[1.0, 2.0, 3.0], material="pgv-tie-mat", adsorbate="pgv-tie-gas",
+                                             temperature=300.0, note="tie")
+        pgsql.isotherm_to_db(iso_holder["iso"], db_path=path, verbose=False)
+    kw = dict(db_path=path, verbose=False)
+    script = [
+        ("isotherm_type_to_db", lambda: pgsql.isotherm_type_to_db({"type": "pointisotherm"}, **kw)),
+        ("isotherm_type_to_db", lambda: pgsql.isotherm_type_to_db({"type": "pointisotherm", "description": "d"}, overwrite=True, **kw)),
+        ("isotherm_types_from_db", lambda: pgsql.isotherm_types_from_db(**kw)),
+        ("adsorbate_property_type_to_db", lambda: pgsql.adsorbate_property_type_to_db({"type": "tie_t", "unit": "u"}, **kw)),
+        ("adsorbate_property_type_to_db", lambda: pgsql.adsorbate_property_type_to_db({"type": "tie_t", "unit": "v"}, overwrite=True, **kw)),
+        ("adsorbate_property_types_from_db", lambda: pgsql.adsorbate_property_types_from_db(**kw)),
+        ("material_property_type_to_db", lambda: pgsql.material_property_type_to_db({"type": "tie_t", "unit": "u"}, **kw)),
+        ("material_property_type_to_db", lambda: pgsql.material_property_type_to_db({"type": "tie_t", "unit": "v"}, overwrite=True, **kw)),
+        ("material_property_types_from_db", lambda: pgsql.material_property_types_from_db(**kw)),
+        ("adsorbate_to_db", lambda: pgsql.adsorbate_to_db(pg.Adsorbate("pgv-tie-a", tie_t=1.0, tie_new=2.0), **kw)),
+        ("adsorbate_to_db", lambda: pgsql.adsorbate_to_db(pg.Adsorbate("pgv-tie-a", tie_t=3.0), overwrite=True, **kw)),
+        ("adsorbates_from_db", lambda: pgsql.adsorbates_from_db(**kw)),
+        ("material_to_db", lambda: pgsql.material_to_db(pg.Material("pgv-tie-m", tie_t=1.0, tie_new=2.0), **kw)),
+        ("material_to_db", lambda: pgsql.material_to_db(pg.Material("pgv-tie-m", tie_t=3.0), overwrite=True, **kw)),
+        ("materials_from_db", lambda: pgsql.materials_from_db(**kw)),
+        ("isotherm_to_db", up_iso),
+        ("isotherms_from_db", lambda: pgsql.isotherms_from_db(**kw)),
+        ("isotherms_from_db", lambda: pgsql.isotherms_from_db(criteria={"material": "pgv-tie-mat"}, **kw)),
+        ("isotherm_delete_db", lambda: pgsql.isotherm_delete_db(iso_holder["iso"].iso_id, **kw)),
+        ("adsorbate_delete_db", lambda: pgsql.adsorbate_delete_db("pgv-tie-a", **kw)),
+        ("material_delete_db", lambda: pgsql.material_delete_db("pgv-tie-m", **kw)),
+        ("adsorbate_property_type_delete_db", lambda: pgsql.adsorbate_property_type_delete_db("tie_new", **kw)),
+        ("material_property_type_delete_db", lambda: pgsql.material_property_type_delete_db("tie_new", **kw)),
+        ("isotherm_type_delete_db", lambda: pgsql.isotherm_type_delete_db("pointisotherm", **kw)),
+        ("isotherm_property_type_to_db", lambda: pgsql.isotherm_property_type_to_db({"type": "tie_t"}, **kw)),
+        ("isotherm_property_types_from_db", lambda: pgsql.isotherm_property_types_from_db(**kw)),
+        ("isotherm_property_type_delete_db", lambda: pgsql.isotherm_property_type_delete_db("tie_t", **kw)),
+    ]
+    seen = {}
+    for fn, thunk in script:
+        log = []
+        sl.with_fault(pgsql, sl.Plan(log=log), thunk)       # the outcome is judged by the histories below; here only the statements matter
+        ck.count(("schema-ops", fn, len(log)), nontrivial=bool(log), bucket="schema tie: statements of an entry point address the generated tables")
+        norm = [" ".join(q.lower().split()) for q in log]
+        if norm[:len(lean_pragmas)] != lean_pragmas or any(q.startswith("pragma") for q in norm[len(lean_pragmas):]):
+            ck.broken.append({"step": "schema tie: connection pragmas", "what": {"entry point": fn, "generated": lean_pragmas, "issued": [q for q in norm if q.startswith("pragma")][:5],
+                                                                               "first statement": norm[:1]}})
+        used = set()
+        for q in log:
+            used |= sl.tables_of_sql(q)
+        seen.setdefault(fn, set()).update(used)
+        if fn not in ops or not used <= ops[fn]:
+            ck.broken.append({"step": "schema tie: tables addressed by an entry point", "what": {"entry point": fn, "statements address": sorted(used), "generated opTables": sorted(ops.get(fn, []))}})
+    public = sorted(n for n in dir(pgsql) if not n.startswith("_") and n.endswith(("_to_db", "_from_db", "_delete_db")) and callable(getattr(pgsql, n))
+                    and getattr(getattr(pgsql, n), "__module__", None) == pgsql.__name__)
+    if public != sorted(ops):
+        ck.broken.append({"step": "schema tie: public entry points", "what": {"module": public, "generated": sorted(ops)}})
+    summary["entry_points_traced"] = len(seen)
+    summary["entry_points_whose_statements_reached_every_generated_table"] = sorted(fn for fn in seen if seen[fn] == ops.get(fn))
+    summary["entry_points_not_traced"] = sorted(set(ops) - set(seen))
+    summary["sqlite_version"] = info.get("sqlite_version")
+    ck.cov["schema_tie"] = summary
+    ck.assumptions += ["SQLite's PRAGMA table_xinfo / foreign_key_list / index_list / index_info report the constraints it enforces (the generated schema is read "
+                       "through them; AUTOINCREMENT, CHECK, DEFERRABLE etc. through a keyword scan of the CREATE text)"]
+
+
+def _first_diff(a, b):
+    for i in range(max(len(a), len(b))):
+        x = a[i] if i < len(a) else "<missing>"
+        y = b[i] if i < len(b) else "<missing>"
+        if x != y:
+            return {"harness": x.replace("\t", " ")[:400], "db_create": y.replace("\t", " ")[:400]}
+    return None
+
+
 def _bulk(ck, pg, pgsql, rng, thorough, files):
-    """A store holding more isotherms than any internal batch size: everything stored is retrievable, selectable and deletable."""
+    """A store holding more isotherms than any internal batch size: everything stored is retrievable, selectable and deletable.
+    Every call below is valid on a fresh store; one that raises is a failing input (not a problem of the harness)."""
+    step = {"call": "set-up"}
+    try:
+        _bulk_body(ck, pg, pgsql, files, step)
+    except Exception as e:  # noqa
+        ck.fail_case({"op": step["call"], "outcome": sl.outcome_of(e) if sl.outcome_of(e) == "parsing" else err_class(e), "clause": "valid operation refused", "bulk": True},
+                     {"call": step["call"], "error": repr(e)[:400]})
+
+
+def _bulk_body(ck, pg, pgsql, files, step):
     path = files.new()
     n = ck.n(130, 260)
+    step["call"] = "typeToDb"
     for t in ("isotherm", "pointisotherm", "modelisotherm"):
         pgsql.isotherm_type_to_db({"type": t}, db_path=path, verbose=False)
+    step["call"] = "matToDb"
     pgsql.material_to_db(pg.Material("pgv-bulk"), db_path=path, verbose=False)
+    step["call"] = "adsToDb"
     pgsql.adsorbate_to_db(pg.Adsorbate("pgv-bulk-gas", store=False), db_path=path, verbose=False)
+    step["call"] = "isoToDb"
     ids = []
     for i in range(n):
         iso = pg.PointIsotherm(pressure=[0.1, 0.2 + i * 1e-3, 0.5], loading=[1.0, 2.0, 3.0 + i], material="pgv-bulk", adsorbate="pgv-bulk-gas", temperature=300.0,
                                pressure_mode="absolute", pressure_unit="bar", loading_basis="molar", loading_unit="mmol", material_basis="mass", material_unit="g", temperature_unit="K")
         pgsql.isotherm_to_db(iso, db_path=path, verbose=False)
         ids.append(iso.iso_id)
+    step["call"] = "isotherms_from_db"
     got = pgsql.isotherms_from_db(db_path=path, verbose=False)
     ck.count(("bulk", n), bucket="bulk store")
     got_ids = sorted(g.iso_id for g in got)
@@ -168,6 +317,7 @@ def _bulk(ck, pg, pgsql, rng, thorough, files):
     # the last stored one can be deleted through what was retrieved
     last = [g for g in got if g.iso_id == ids[-1]]
     if last:
+        step["call"] = "isoDelete"
         pgsql.isotherm_delete_db(last[0], db_path=path, verbose=False)
         left = pgsql.isotherms_from_db(db_path=path, verbose=False)
         if sorted(g.iso_id for g in left) != sorted(ids[:-1]) and got_ids == sorted(ids):
@@ -332,10 +482,10 @@ def _run(ck, pg, pgsql, BaseIsotherm, rng, thorough, files):
         # the outcome must not depend on other files / the session: replay file 0's accepted uploads on a new file in this same session
         if nfiles > 1 and stored[0]:
             p2 = files.new()
-            for t in ("isotherm", "pointisotherm", "modelisotherm"):
-                pgsql.isotherm_type_to_db({"type": t}, db_path=p2, verbose=False)
             iso, desc = stored[0][0]
             try:
+                for t in ("isotherm", "pointisotherm", "modelisotherm"):
+                    pgsql.isotherm_type_to_db({"type": t}, db_path=p2, verbose=False)
                 pgsql.isotherm_to_db(iso, db_path=p2, verbose=False)
                 ok2 = True
             except Exception as e:  # noqa
@@ -371,6 +521,15 @@ def _run(ck, pg, pgsql, BaseIsotherm, rng, thorough, files):
     ck.assumptions += ["SQLite's own constraint enforcement and REAL/TEXT affinity (values compared after the same canonicalisation)"]
 
 
+def _retrieve(ck, fn, path, sig, line):
+    """`*_from_db` on a store whose last call was accepted: a retrieval that raises is a failing input (returns None)."""
+    try:
+        return list(fn(db_path=path, verbose=False))
+    except Exception as e:  # noqa
+        ck.fail_case({**sig, "clause": "retrieval after an accepted call raises", "retrieval": fn.__name__, "error_class": err_class(e)}, {"line": line[:300], "error": repr(e)[:300]})
+        return None
+
+
 def _check_effect(ck, pg, pgsql, kind, a, obj, path, before, after, sig, line, stored):
     """An accepted call has exactly the dictionary effect, and what was uploaded can be retrieved with equal content."""
     if kind in ("adsToDb", "matToDb"):
@@ -385,7 +544,9 @@ def _check_effect(ck, pg, pgsql, kind, a, obj, path, before, after, sig, line, s
         others_a = [r for r in after[pk] if r[0] != name]
         if name not in after[key] or rows != exp or others_a != others_b:
             ck.fail_case({**sig, "clause": "upload stores exactly the item"}, {"line": line, "stored": rows, "expected": exp})
-        got = (pgsql.adsorbates_from_db if kind == "adsToDb" else pgsql.materials_from_db)(db_path=path, verbose=False)
+        got = _retrieve(ck, pgsql.adsorbates_from_db if kind == "adsToDb" else pgsql.materials_from_db, path, sig, line)
+        if got is None:
+            return
         mine = [g for g in got if g.name == name]
         ok = len(mine) == 1
         if ok:
@@ -407,11 +568,13 @@ def _check_effect(ck, pg, pgsql, kind, a, obj, path, before, after, sig, line, s
         table = a[0]
         key = {"adsorbate": "adsTypes", "material": "matTypes", "isotherm": "isoTypes"}[table]
         fn = {"adsorbate": pgsql.adsorbate_property_types_from_db, "material": pgsql.material_property_types_from_db, "isotherm": pgsql.isotherm_types_from_db}[table]
-        got = fn(db_path=path, verbose=False)
+        got = _retrieve(ck, fn, path, sig, line)
+        if got is None:
+            return
         if table == "isotherm":
-            rows = [(g.get("type"), g.get("description") or "") for g in got]
+            rows = [(sl.key_tok(g.get("type")), g.get("description") or "") for g in got]
         else:
-            rows = [(g.get("type"), g.get("unit") or "", g.get("description") or "") for g in got]
+            rows = [(sl.key_tok(g.get("type")), g.get("unit") or "", g.get("description") or "") for g in got]
         if rows != [tuple(r) for r in after[key]]:
             ck.fail_case({**sig, "clause": "retrieved type collection equals the stored one", "table": table}, {"line": line, "retrieved": str(rows)[:300], "stored": str(after[key])[:300]})
         if kind == "typeDelete" and (a[1] in [r[0] for r in after[key]] or [r for r in before[key] if r[0] != a[1]] != after[key]):
@@ -419,7 +582,9 @@ def _check_effect(ck, pg, pgsql, kind, a, obj, path, before, after, sig, line, s
     elif kind == "isoToDb":
         desc = a[0]
         stored.append((obj, desc))
-        got = [i for i in pgsql.isotherms_from_db(db_path=path, verbose=False)]
+        got = _retrieve(ck, pgsql.isotherms_from_db, path, sig, line)
+        if got is None:
+            return
         mine = [g for g in got if g.iso_id == desc["id"]]
         ints = any(isinstance(v, int) and not isinstance(v, bool) for v in obj.properties.values())
         if not mine:
